@@ -314,12 +314,18 @@ impl Prop for C07Prop {
                 // (line breaks, indentation: open finding); the per-token rules still apply to its
                 // enabled tokens. Is the spacing between two tokens on one line canonical?
                 let bad_gap = noncanonical_gap_outside(&out) || noncanonical_gap_outside(&out2);
+                // the token at (or after) the first difference, and how its logical line
+                // relates to the regions
+                let to = refscan::scan(&out);
+                let k = to.iter().position(|t| t.start >= d).unwrap_or(to.len().saturating_sub(1));
+                let context = crate::props::c08::toggle_context(x, k);
                 return Outcome::Fail(
                     Failure::new(
                         "outside-not-formatted",
                         format!("the layout of enabled code between two regions changes the output: {:?} vs {:?}", a, b),
                     )
                     .fact(if bad_gap { "noncanonical-gap-outside-regions" } else { "gaps-canonical" })
+                    .fact(context)
                     .facts(&logcap::facts())
                     .facts(&logf),
                 );
